@@ -111,7 +111,7 @@ class NcpEzsp:
         self.native = layout_of(version)
         self.negotiated = negotiated
         self.log: list[dict] = []              # every command received, in order
-        self.last_seq = 0
+        self.last_seq = 0xFF          # no response sent yet
         self.script = {}                       # name -> list of behaviours consumed per call (or callable)
         self.handlers = {}                     # name -> callable(ncp, args dict) -> tuple of response values
         self.on_command = None                 # hook(entry) called for every received command
@@ -165,7 +165,6 @@ class NcpEzsp:
         entry["args"] = args
         entry["rest"] = rest
         self.log.append(entry)
-        self.last_seq = seq
         if self.on_command:
             self.on_command(entry)
         beh = self._behaviour(name, args)
@@ -234,6 +233,7 @@ class NcpEzsp:
         self.loop.call_soon(self._send_now, fmt, seq, name, values)
 
     def _send_now(self, fmt, seq, name, values):
+        self.last_seq = seq           # callbacks carry the sequence number of the NCP's last response
         self.deliver(self.encode(fmt, seq, name, values))
 
     def callback(self, name, values, fmt=None, seq=None, now=False):
